@@ -29,6 +29,20 @@ ASSUMPTIONS = [
 ]
 
 SCAL = st.one_of(st.sampled_from([2, -1, 3, 0.5, -2.5, 1, 0, 0.0, -1.0]), finite(1e-3, 10), finite(-10, -1e-3))
+SCAL_KINDS = st.sampled_from(["as_is", "as_is", "as_is", "np.float64", "np.int64", "int"])
+
+
+def scalar_of(c, kind):
+    """the same real number as another scalar type (all real scalars are in the domain); the exact value is kept or the kind is ignored"""
+    if kind == "np.float64":
+        return np.float64(c)
+    if kind == "np.int64" and float(c).is_integer():
+        return np.int64(int(c))
+    if kind == "int" and float(c).is_integer():
+        return int(c)
+    # np.float32 scalars are not generated: arithmetic with them is carried out in single precision by NumPy's promotion rules - a
+    # different computation, not a different representation (same reading as for float32 diagrams, DESIGN 9.2)
+    return c
 
 
 # =========================================================================================
@@ -134,6 +148,7 @@ def exact_op(draw):
     d = {"op": op, "i": draw(st.integers(0, 30)), "j": draw(st.integers(0, 30))}
     if op in ("mul", "rmul", "div"):
         d["c"] = draw(SCAL)
+        d["ckind"] = draw(SCAL_KINDS)
     if op == "leaf":
         d["leaf"] = draw(exact_leaf())
     return d
@@ -200,17 +215,18 @@ def run_exact_history(case, ctx):
         elif k == "neg":
             pool.add(ctx.call(lambda: -a["obj"]), ("scale", -1.0, a["model"]), step)
         elif k in ("mul", "rmul"):
-            c = op["c"]
+            c = scalar_of(op["c"], op.get("ckind", "as_is"))
+            ctx.label("scalar:" + type(c).__name__)
             res = ctx.call((lambda: a["obj"] * c) if k == "mul" else (lambda: c * a["obj"]))
             pool.add(res, ("scale", float(c), a["model"]), step)
         elif k == "div":
-            c = op["c"]
+            c = scalar_of(op["c"], op.get("ckind", "as_is"))
             if c == 0:
                 ok = ctx.raises(ValueError, lambda: a["obj"] / c)
                 ctx.require(ok, "division_by_zero_accepted", "landscape / 0 returned a value")
                 feats.add("div0")
                 continue
-            pool.add(ctx.call(lambda: a["obj"] / c), ("scale", 1.0 / c, a["model"]), step)
+            pool.add(ctx.call(lambda: a["obj"] / c), ("scale", 1.0 / float(c), a["model"]), step)
         elif k == "div0":
             ok = ctx.raises(ValueError, lambda: a["obj"] / 0.0)
             ctx.require(ok, "division_by_zero_accepted", "landscape / 0.0 returned a value")
@@ -276,15 +292,19 @@ class GridPool:
         self.ctx = ctx
         self.items = []
 
-    def add(self, obj, vals, origin):
+    def add(self, obj, vals, origin, lazy=False):
         vals = np.array(vals, dtype=float)
-        snap = (np.array(obj.values, dtype=float).copy(), obj.start, obj.stop, obj.num_steps, obj.hom_deg)
-        self.items.append({"obj": obj, "model": vals, "snap": snap, "origin": origin})
+        # a lazily computed landscape (compute=False) holds no values yet: its snapshot is what an eagerly built twin holds, and the entry
+        # is checked from its first use on
+        snap = ((vals.copy() if lazy else np.array(obj.values, dtype=float).copy()), obj.start, obj.stop, obj.num_steps, obj.hom_deg)
+        self.items.append({"obj": obj, "model": vals, "snap": snap, "origin": origin, "lazy": lazy})
 
     def check(self, step):
         ctx = self.ctx
         for idx, it in enumerate(self.items):
             o = it["obj"]
+            if it.get("lazy") and np.asarray(o.values).size == 0:
+                continue            # still not computed (never used so far)
             cur = np.asarray(o.values, dtype=float)
             s = it["snap"]
             same = cur.shape == s[0].shape and np.array_equal(cur, s[0]) and (o.start, o.stop, o.num_steps, o.hom_deg) == s[1:]
@@ -307,7 +327,7 @@ def grid_leaf(draw):
     g = draw(st.sampled_from([0, 0, 0, 0, 1, 2, 3, 4, 5]))
     if draw(st.integers(0, 2)) == 0:
         fam = draw(LD.bar_family(1, 5, scales=False, allow_neg=False, lattice_max=8, modes=("lattice", "float")))
-        return {"kind": "dgm", "bars": fam["dgms"][0], "grid": g}
+        return {"kind": "dgm", "bars": fam["dgms"][0], "grid": g, "lazy": draw(st.booleans())}
     n = GRIDS[g][2]
     k = draw(st.integers(1, 3))
     yv = st.one_of(st.integers(-3, 3).map(float), finite(-5, 5))
@@ -332,6 +352,7 @@ def grid_op(draw):
     d = {"op": op, "i": draw(st.integers(0, 30)), "j": draw(st.integers(0, 30))}
     if op in ("mul", "rmul", "div"):
         d["c"] = draw(SCAL)
+        d["ckind"] = draw(SCAL_KINDS)
     if op == "leaf":
         d["leaf"] = draw(grid_leaf())
     if op in ("snap", "lc", "avg"):
@@ -367,6 +388,12 @@ def make_grid_leaf(ctx, pool, leaf):
     if is_sentinel(obj):
         ctx.label("leaf_excluded_empty_sentinel")
         return False
+    if leaf.get("lazy"):
+        # built with compute=False: the landscape is only computed when it is first used - here, as an operand of arithmetic / re-sampling
+        ctx.label("lazy_grid_leaf")
+        lazy = ctx.call(PersLandscapeApprox, start=start, stop=stop, num_steps=n, dgms=[np.array(leaf["bars"], dtype=float)], hom_deg=0, compute=False)
+        pool.add(lazy, np.array(obj.values, dtype=float), "lazily computed diagram %s" % leaf["bars"], lazy=True)
+        return True
     pool.add(obj, np.array(obj.values, dtype=float), "diagram %s" % leaf["bars"])
     return True
 
@@ -432,16 +459,17 @@ def run_grid_history(case, ctx):
         elif k == "neg":
             pool.add(ctx.call(lambda: -a["obj"]), -a["model"], step)
         elif k in ("mul", "rmul"):
-            c = op["c"]
+            c = scalar_of(op["c"], op.get("ckind", "as_is"))
+            ctx.label("scalar:" + type(c).__name__)
             pool.add(ctx.call((lambda: a["obj"] * c) if k == "mul" else (lambda: c * a["obj"])), float(c) * a["model"], step)
         elif k in ("div", "div0"):
-            c = op.get("c", 0.0) if k == "div" else 0.0
+            c = scalar_of(op.get("c", 0.0), op.get("ckind", "as_is")) if k == "div" else 0.0
             if c == 0:
                 ok = ctx.raises(ValueError, lambda: a["obj"] / c)
                 ctx.require(ok, "division_by_zero_accepted", "grid landscape / 0 returned a value")
                 feats.add("div0")
                 continue
-            pool.add(ctx.call(lambda: a["obj"] / c), a["model"] * (1.0 / c), step)
+            pool.add(ctx.call(lambda: a["obj"] / c), a["model"] * (1.0 / float(c)), step)
         elif k == "bad_grid":
             o = a["obj"]
             for kw in ({"start": o.start - 1.0}, {"stop": o.stop + 1.0}, {"num_steps": o.num_steps + 1}):
